@@ -89,6 +89,7 @@ type checkRun struct {
 	dirs    map[string]*Directive
 	expect  string
 	r       int // replica that serves the check
+	cancel  context.CancelFunc // cancels the context the request runs on
 	quiet   bool // only the request and the answer are logged (hammered checks: their store events are not ordered by the trace)
 }
 
@@ -751,6 +752,11 @@ func (d *driver) release(c *checkRun, dir Directive) {
 		if dir.Jwks == "" {
 			dir.Jwks = pre.Jwks
 		}
+		dir.Cancel = dir.Cancel || pre.Cancel
+	}
+	if dir.Cancel && c.cancel != nil {
+		c.cancel()
+		d.rec.emit(map[string]any{"ev": "noop", "c": "cancel:" + c.id})
 	}
 	c.gates++
 	d.mu.Lock()
@@ -794,8 +800,11 @@ func (d *driver) start(st *Step) *checkRun {
 	d.mu.Lock()
 	d.cur = c
 	d.mu.Unlock()
+	ctx, cancel := context.WithCancel(context.WithValue(context.Background(), checkKey{}, c))
+	c.cancel = cancel
 	go func() {
 		defer close(c.done)
+		defer cancel()
 		defer func() {
 			if r := recover(); r != nil {
 				c.pan = r
@@ -803,9 +812,9 @@ func (d *driver) start(st *Step) *checkRun {
 			}
 		}()
 		if d.checkFn != nil {
-			c.resp, c.err = d.checkFn(context.WithValue(context.Background(), checkKey{}, c), req)
+			c.resp, c.err = d.checkFn(ctx, req)
 		} else {
-			c.resp, c.err = e.replicas[c.r%len(e.replicas)].Check(context.WithValue(context.Background(), checkKey{}, c), req)
+			c.resp, c.err = e.replicas[c.r%len(e.replicas)].Check(ctx, req)
 		}
 	}()
 	d.wait(c)
